@@ -2,6 +2,8 @@ import CoercionModel.Model.Cont
 import CoercionModel.Proofs.Engine
 import CoercionModel.Model.Routing
 import CoercionModel.Generated.F2
+import CoercionModel.Model.Skeletons
+import CoercionModel.Generated.F10
 set_option linter.unusedSimpArgs false
 /-
   C07 — Cont-check failures are never lost; deferred checks always run once entered.
@@ -186,5 +188,15 @@ theorem deferred_reached_from_failing_stages :
 /-! ### non-vacuity -/
 def tr : List Label := [.start, .tick, .runDone false, .send, .tick, .runDone true, .cancel, .drainRecv, .send, .close, .drainRecv]
 example : (run {} tr).map (fun s => (s.failedRun, s.seenErr, s.cons, s.runs)) = some (true, true, .drained, 2) := by decide
+
+/-- the Go functions this property's model mirrors still have the shape the model was written against
+    (control-flow skeletons regenerated from /repo on every run, Model/Skeletons): runContChecks, contChecksPassing, blockEnd, planPostChecks, smEnd -/
+theorem facts_skeleton :
+    Generated.F10.runContChecks = Skeletons.runContChecks ∧
+    Generated.F10.contChecksPassing = Skeletons.contChecksPassing ∧
+    Generated.F10.blockEnd = Skeletons.blockEnd ∧
+    Generated.F10.planPostChecks = Skeletons.planPostChecks ∧
+    Generated.F10.smEnd = Skeletons.smEnd := by
+  decide
 
 end Coercion.C07
